@@ -286,6 +286,15 @@ def oracle(c, r):
             if not (-1e-9 <= t <= 1 + 1e-9) or not on_circle(q, c0, 2e-5):
                 yield ("segment-point", "segment/circle intersection %r is off the segment or the circle" % (q,))
                 break
+        # completeness on the segment: every crossing of the carrier line strictly inside the segment is reported
+        if dd < c0[2] - 1e-9:
+            h = math.sqrt(c0[2] ** 2 - dd ** 2) / math.sqrt(dv[0] ** 2 + dv[1] ** 2)
+            for t in (tc - h, tc + h):
+                if 1e-9 < t < 1 - 1e-9:
+                    q = [a[0] + dv[0] * t, a[1] + dv[1] * t]
+                    if not any(dist(q, w) <= 1e-6 * max(1.0, c0[2]) for w in r["pts"]):
+                        yield ("segment-missed", "the segment %r - %r crosses circle %r at %r (parameter %r), reported intersections %r" % (a, b, c0, q, t, r["pts"]))
+                        break
     elif k in ("c11.arc3", "c11.arc"):
         if k == "c11.arc3":
             center, rad = r["c"], r["r"]
